@@ -99,8 +99,10 @@ def twin_words(r):
     any-text placeholder, one extra transition, a description."""
     c1, c2 = cmd('echo apple'), cmd('echo berry')
     a, b = lit('v'), lit('w')
-    aspects = ['text', 'lit-level', 'cmd-level', 'cmd-identity', 'star', 'extra', 'descr', 'cmd-vs-lit']
+    aspects = ['text', 'lit-level', 'cmd-level', 'cmd-identity', 'star', 'extra', 'descr', 'cmd-vs-lit',
+               'builtin-level', 'spec-level', 'builtin-vs-lit-level']
     aspect = r.choice(aspects)
+    extra_defs = []
     if aspect == 'text':
         v1, v2 = alt(a, b), alt(lit('p'), lit('q'))
     elif aspect == 'lit-level':
@@ -115,6 +117,16 @@ def twin_words(r):
         v1, v2 = alt(a, b), alt(a, b, lit('x'))
     elif aspect == 'descr':
         v1, v2 = alt(a, b), alt(lit('v', 'described'), b)
+    elif aspect == 'builtin-level':
+        # built-in completions are compadd-style commands in zsh: their candidate tables are separate ones
+        v1, v2 = fb(nt('PATH'), nt('DIRECTORY')), fb(nt('DIRECTORY'), nt('PATH'))
+    elif aspect == 'spec-level':
+        for sh in common.SHELLS:
+            extra_defs.append(defn('SPA', sh, cmd('echo spa_%s' % sh)))
+            extra_defs.append(defn('SPB', sh, cmd('echo spb_%s' % sh)))
+        v1, v2 = fb(nt('SPA'), nt('SPB')), fb(nt('SPB'), nt('SPA'))
+    elif aspect == 'builtin-vs-lit-level':
+        v1, v2 = fb(a, nt('PATH')), fb(nt('PATH'), a)
     else:
         v1, v2 = fb(a, c1), fb(c1, a)
     words = [('word', (lit('--a='), v1)), ('word', (lit('--b='), v2))]
@@ -124,7 +136,7 @@ def twin_words(r):
     e = seq(alt(*words), r.choice([lit('end'), c2, nt('U2')]))
     if r.random() < 0.3:
         e = alt(e, seq(lit('other'), c1))
-    return [call('cmd', e)]
+    return [call('cmd', e)] + extra_defs
 
 
 # ---------------------------------------------------------------------------
